@@ -440,8 +440,15 @@ func c17Envelope(c *core.Ctx, r *core.RNG) {
 		{"wrapped-24-byte-plaintext", kek, wrap24},
 		{"bad-kek-size", r.Bytes(15), env.AESKey},
 	}
+	// each case also with the label lost on the way (the label names the KEK, it is no input of RFC 3394)
+	for _, t0 := range append([]tam{}, tams...) {
+		tams = append(tams, tam{t0.name + "|no-label", t0.kek, t0.ct})
+	}
 	for _, t := range tams {
 		e := backend.KeyEnvelope{KEKLabel: label, AESKey: backend.HEXBytes(t.ct)}
+		if strings.HasSuffix(t.name, "|no-label") {
+			e.KEKLabel = ""
+		}
 		var got lorawan.AES128Key
 		var err error
 		c.Eval(1)
